@@ -65,7 +65,62 @@ type gen struct {
 	callCtx    map[ssa.Instruction]int
 	cloneMemo  map[*ssa.Function]bool
 	inblkStart int
+	// field sensitivity for the structs of the analysed packages: a node of struct (or pointer-to-struct) type has a
+	// node per field besides itself; what arrives at the struct as a whole reaches every field, what is stored in one
+	// field reaches that field and the struct as a whole, and a copy of a struct copies field by field
+	nfields map[int]int
+	lenOf   map[int]int // length-shadow node -> the node whose lengths it stands for
 }
+type fieldKey struct{ n, i int }
+type winKey struct{ n int }
+
+// F: field i of struct node n
+func (g *gen) F(n, i int) int {
+	return g.node(fieldKey{n, i}, fmt.Sprintf("field %d of %s", i, g.names[n-1]))
+}
+
+// in: where data arriving at node n goes: at a struct it arrives at the whole, and so at every field
+func (g *gen) in(n int) int {
+	if n != 0 && g.nfields[n] > 0 {
+		return g.node(winKey{n}, "whole of "+g.names[n-1])
+	}
+	return n
+}
+
+// ourStruct: the number of fields when t is (a pointer to) a struct type declared in the analysed packages
+func ourStruct(t types.Type) int {
+	if p, ok := t.Underlying().(*types.Pointer); ok {
+		t = p.Elem()
+	}
+	n, ok := t.(*types.Named)
+	if !ok || n.Obj().Pkg() == nil || !strings.HasPrefix(n.Obj().Pkg().Path(), root) {
+		return 0
+	}
+	st, ok := n.Underlying().(*types.Struct)
+	if !ok || st.NumFields() == 0 || st.NumFields() > 16 {
+		return 0
+	}
+	return st.NumFields()
+}
+
+// register a struct node: whole -> node, whole -> field, field -> node
+func (g *gen) structNode(id int, t types.Type) {
+	if id == 0 || g.nfields[id] != 0 {
+		return
+	}
+	k := ourStruct(t)
+	if k == 0 {
+		return
+	}
+	g.nfields[id] = k
+	w := g.in(id)
+	g.edges = append(g.edges, [2]int{w, id}, [2]int{g.L(w), g.L(id)})
+	for i := 0; i < k; i++ {
+		f := g.F(id, i)
+		g.edges = append(g.edges, [2]int{w, f}, [2]int{f, id}, [2]int{g.L(w), g.L(f)}, [2]int{g.L(f), g.L(id)})
+	}
+}
+
 type ctxKey struct {
 	v   ssa.Value
 	ctx int
@@ -95,7 +150,11 @@ func (g *gen) retIn(fn *ssa.Function, i, c int) int {
 	if c != 0 {
 		d += fmt.Sprintf(" [copy %d]", c)
 	}
-	return g.node(retKey{fn, i, c}, d)
+	id := g.node(retKey{fn, i, c}, d)
+	if i < fn.Signature.Results().Len() {
+		g.structNode(id, fn.Signature.Results().At(i).Type())
+	}
+	return id
 }
 
 func scalarType(t types.Type) bool {
@@ -174,19 +233,30 @@ func (g *gen) val(v ssa.Value) int {
 	case *ssa.Builtin:
 		return 0
 	case *ssa.Global:
-		return g.node(x, "global "+x.String())
+		id := g.node(x, "global "+x.String())
+		g.structNode(id, x.Type())
+		return id
 	}
 	fn := ""
 	if p := v.Parent(); p != nil {
 		fn = p.String() + " "
 		if g.ctx != 0 && p == g.ctxFn {
-			return g.node(ctxKey{v, g.ctx}, fmt.Sprintf("%s%s @%s [copy %d]", fn, v.Name(), g.pos(v.Pos()), g.ctx))
+			id := g.node(ctxKey{v, g.ctx}, fmt.Sprintf("%s%s @%s [copy %d]", fn, v.Name(), g.pos(v.Pos()), g.ctx))
+			g.structNode(id, v.Type())
+			return id
 		}
 	}
-	return g.node(v, fn+v.Name()+" @"+g.pos(v.Pos()))
+	id := g.node(v, fn+v.Name()+" @"+g.pos(v.Pos()))
+	g.structNode(id, v.Type())
+	return id
 }
 func (g *gen) edge(from, to int) {
 	if from != 0 && to != 0 && from != to {
+		if n, isLen := g.lenOf[to]; isLen && g.nfields[n] > 0 {
+			to = g.L(g.in(n)) // lengths arriving at a struct as a whole
+		} else {
+			to = g.in(to)
+		}
 		g.edges = append(g.edges, [2]int{from, to})
 	}
 }
@@ -203,11 +273,21 @@ func (g *gen) L(n int) int {
 	if n == 0 {
 		return 0
 	}
-	return g.node(lenKey{n}, "length of "+g.names[n-1])
+	id := g.node(lenKey{n}, "length of "+g.names[n-1])
+	g.lenOf[id] = n
+	return id
 }
 
 // move: v is a copy of x (content and length)
 func (g *gen) move(x, v int) {
+	if x != 0 && v != 0 && x != v && g.nfields[x] > 0 && g.nfields[x] == g.nfields[v] {
+		// a struct copied: the whole to the whole, each field to the same field
+		g.edges = append(g.edges, [2]int{g.in(x), g.in(v)}, [2]int{g.L(g.in(x)), g.L(g.in(v))})
+		for i := 0; i < g.nfields[x]; i++ {
+			g.edges = append(g.edges, [2]int{g.F(x, i), g.F(v, i)}, [2]int{g.L(g.F(x, i)), g.L(g.F(v, i))})
+		}
+		return
+	}
 	g.edge(x, v)
 	g.edge(g.L(x), g.L(v))
 }
@@ -464,7 +544,7 @@ func (g *gen) controlDeps(fn *ssa.Function, fid int) {
 						cs = append(cs, cond[p.Index])
 					}
 					for _, c := range cs {
-						g.implicit = append(g.implicit, [2]int{c, g.val(x)})
+						g.implicit = append(g.implicit, [2]int{c, g.in(g.val(x))})
 						if hasLength(x.Type()) {
 							g.implicit = append(g.implicit, [2]int{c, g.L(g.val(x))})
 						}
@@ -474,7 +554,7 @@ func (g *gen) controlDeps(fn *ssa.Function, fid int) {
 				for i := range x.Results {
 					rn := g.ret(fn, i)
 					for _, c := range dependsOn(b.Index) {
-						g.implicit = append(g.implicit, [2]int{c, rn})
+						g.implicit = append(g.implicit, [2]int{c, g.in(rn)})
 						if hasLength(x.Results[i].Type()) {
 							g.implicit = append(g.implicit, [2]int{c, g.L(rn)})
 						}
@@ -709,8 +789,16 @@ func (g *gen) doInstr(fn *ssa.Function, fid int, b *ssa.BasicBlock, in ssa.Instr
 		g.edge(g.val(x.X), g.val(x.Chan))
 	case *ssa.FieldAddr:
 		g.exact(g.val(x))
-		g.move(g.val(x.X), g.val(x))
-		g.move(g.val(x), g.val(x.X))
+		if b := g.val(x.X); g.nfields[b] > x.Field {
+			f := g.F(b, x.Field)
+			g.edge(f, g.val(x)) // the address of the field stands for the field
+			g.edge(g.val(x), f)
+			g.edge(g.L(f), g.L(g.val(x)))
+			g.edge(g.L(g.val(x)), g.L(f))
+		} else {
+			g.move(g.val(x.X), g.val(x))
+			g.move(g.val(x), g.val(x.X))
+		}
 	case *ssa.IndexAddr:
 		g.exact(g.val(x))
 		g.move(g.val(x.X), g.val(x))
@@ -728,7 +816,12 @@ func (g *gen) doInstr(fn *ssa.Function, fid int, b *ssa.BasicBlock, in ssa.Instr
 		}
 		g.edge(g.L(g.val(x.X)), g.L(v))
 	case *ssa.Field:
-		g.move(g.val(x.X), g.exact(g.val(x)))
+		if b := g.val(x.X); g.nfields[b] > x.Field {
+			g.edge(g.F(b, x.Field), g.exact(g.val(x)))
+			g.edge(g.L(g.F(b, x.Field)), g.L(g.val(x)))
+		} else {
+			g.move(g.val(x.X), g.exact(g.val(x)))
+		}
 	case *ssa.Index:
 		g.edge(g.val(x.X), g.val(x))
 	case *ssa.Lookup:
@@ -816,6 +909,36 @@ func (g *gen) held(v, addr int) {
 		g.aedge(g.cN(v, k), g.cN(addr, k+1))
 		g.aedge(g.cN(addr, k+1), g.cN(v, k))
 	}
+}
+
+// chunked: a long list as the concatenation of short ones (Coq's parser overflows its stack on one literal of tens of
+// thousands of elements); duplicates are dropped
+func chunked(name, typ string, items []string) string {
+	seen := map[string]bool{}
+	var uniq []string
+	for _, it := range items {
+		if !seen[it] {
+			seen[it] = true
+			uniq = append(uniq, it)
+		}
+	}
+	const size = 2000
+	if len(uniq) <= size {
+		return fmt.Sprintf("Definition %s : list %s := [%s].\n", name, typ, strings.Join(uniq, "; "))
+	}
+	var b strings.Builder
+	var parts []string
+	for i := 0; i*size < len(uniq); i++ {
+		hi := (i + 1) * size
+		if hi > len(uniq) {
+			hi = len(uniq)
+		}
+		part := fmt.Sprintf("%s_c%d", name, i)
+		parts = append(parts, part)
+		fmt.Fprintf(&b, "Definition %s : list %s := [%s].\n", part, typ, strings.Join(uniq[i*size:hi], "; "))
+	}
+	fmt.Fprintf(&b, "Definition %s : list %s := %s.\n", name, typ, strings.Join(parts, " ++ "))
+	return b.String()
 }
 
 func isFuncType(t types.Type) bool {
@@ -1104,7 +1227,7 @@ func main() {
 	}
 	prog, _ := ssautil.AllPackages(pkgs, ssa.InstantiateGenerics)
 	prog.Build()
-	g := &gen{prog: prog, fset: fset, ids: map[any]int{}, fnIDs: map[*ssa.Function]int{}, ours: map[*ssa.Function]bool{}, precise: map[int]bool{}, ourCall: map[ssa.Value]bool{}, callCtx: map[ssa.Instruction]int{}, cloneMemo: map[*ssa.Function]bool{}}
+	g := &gen{prog: prog, fset: fset, ids: map[any]int{}, fnIDs: map[*ssa.Function]int{}, ours: map[*ssa.Function]bool{}, precise: map[int]bool{}, ourCall: map[ssa.Value]bool{}, callCtx: map[ssa.Instruction]int{}, cloneMemo: map[*ssa.Function]bool{}, nfields: map[int]int{}, lenOf: map[int]int{}}
 	var fns []*ssa.Function
 	for fn := range ssautil.AllFunctions(prog) {
 		if isOurs(fn) && fn.Blocks != nil && !strings.Contains(fn.String(), "/docs.") {
@@ -1142,9 +1265,12 @@ func main() {
 		}
 		sort.Slice(ls, func(i, j int) bool { return ls[i][1] < ls[j][1] })
 		for _, x := range ls {
-			g.edge(x[1], x[0])
+			if x[0] == 0 || x[1] == 0 {
+				continue
+			}
+			g.edges = append(g.edges, [2]int{x[1], x[0]}) // (not through edge(): the length is part of the node itself)
 			if !g.precise[x[0]] {
-				g.edge(x[0], x[1])
+				g.edges = append(g.edges, [2]int{x[0], x[1]})
 			}
 		}
 	}
@@ -1157,7 +1283,7 @@ func main() {
 	for i, e := range g.edges {
 		es[i] = fmt.Sprintf("(%d, %d)", e[0], e[1])
 	}
-	fmt.Fprintf(&b, "Definition edges : list (positive * positive) := [%s].\n", strings.Join(es, "; "))
+	b.WriteString(chunked("edges", "(positive * positive)", es))
 	fmt.Fprintf(&b, "Definition sources_hmac : list positive := %s.\n", plist(nz(g.srcS)))
 	fmt.Fprintf(&b, "Definition sources_caller : list positive := %s.\n", plist(nz(g.srcU)))
 	cs := func(xs []cmp) string {
@@ -1232,7 +1358,13 @@ func main() {
 	for i, x := range g.writes {
 		tr[i] = fmt.Sprintf("(%d, %d, %d)", x[0], x[1], x[2]+1)
 	}
-	fmt.Fprintf(&b, "(* views and pointers: x aliases into y *)\nDefinition alias_edges : list (positive * positive) := %s.\n", pr(g.alias))
+	{
+		as := make([]string, len(g.alias))
+		for i, x := range g.alias {
+			as[i] = fmt.Sprintf("(%d, %d)", x[0], x[1])
+		}
+		b.WriteString("(* views and pointers: x aliases into y *)\n" + chunked("alias_edges", "(positive * positive)", as))
+	}
 	fmt.Fprintf(&b, "Definition param_refs : list positive := %s.\nDefinition global_refs : list positive := %s.\n", plist(nz(g.paramSrc)), plist(nz(g.globSrc)))
 	fmt.Fprintf(&b, "(* pooled buffer, function that took it *)\nDefinition pool_gets : list (positive * positive) := %s.\n", pr(g.poolGets))
 	fmt.Fprintf(&b, "(* written object, instruction, 2 = inside an init function *)\nDefinition writes : list (positive * positive * positive) := [%s].\n", strings.Join(tr, "; "))
@@ -1250,7 +1382,7 @@ func main() {
 	for i, x := range g.implicit {
 		mg[i] = fmt.Sprintf("(%d, %d)", x[0], x[1])
 	}
-	fmt.Fprintf(&b, "(* control dependence: branch condition -> phi node / returned value it selects *)\nDefinition implicit_edges : list (positive * positive) := [%s].\n", strings.Join(mg, "; "))
+	b.WriteString("(* control dependence: branch condition -> phi node / returned value it selects *)\n" + chunked("implicit_edges", "(positive * positive)", mg))
 	cd := make([]string, len(g.controlled))
 	for i, x := range g.controlled {
 		cd[i] = fmt.Sprintf("(%d, %d)", x[0], x[1])
